@@ -96,7 +96,13 @@ func (d *Durable) Replay() (sn pb.Snapshot, hs pb.HardState, ents []pb.Entry, er
 	base := sn.Metadata.Index
 	for i := range d.Recs {
 		r := &d.Recs[i]
-		if r.Kind != RecEntry || r.Ent.Index <= base {
+		if r.Kind != RecEntry {
+			continue
+		}
+		if r.Ent.Index <= base {
+			// wal.ReadAll: a record at or below the start index that follows records above it is
+			// a conflicting append and truncates what was read so far
+			ents = ents[:0]
 			continue
 		}
 		up := r.Ent.Index - base - 1
